@@ -35,7 +35,7 @@ def build_zerv():
 
 def real_accepts(fmt, s):
     """run the real parser through the CLI: (accepted: bool, stdout, stderr)"""
-    p = subprocess.run([ZERV, "check", "--format", fmt, "--", s], capture_output=True, text=True, timeout=60)
+    p = subprocess.run([ZERV, "check", "--format", fmt, "--", s], capture_output=True, text=True, timeout=60, stdin=subprocess.DEVNULL)
     return p.returncode == 0, p.stdout, p.stderr
 
 
@@ -119,7 +119,8 @@ def run_task(task, tier, seed):
         res["undecided"].append("cannot build the zerv binary for replay: " + msg)
         return res
     timeout = 60 if tier == "quick" else 300
-    solvers = ["z3-4.8.12"] if tier == "quick" else ["z3-4.8.12", "z3-5.1.0", "cvc5-1.0"]
+    # primary solver decides; the others are cross-checks (their `unknown` is tolerated, their `sat` is not)
+    solvers = ["z3-5.1.0"] if tier == "quick" else ["z3-5.1.0", "z3-4.8.12", "cvc5-1.0"]
     res["backend"] = " + ".join(solvers)
     res["cmd"] = f"vx regex {task['static']} | " + " ; ".join(" ".join(SOLVERS[s]("<query>.smt2", timeout)) for s in solvers)
     res["trusted"] = {
@@ -141,7 +142,7 @@ def run_task(task, tier, seed):
         statuses = {}
         witness = None
         for sv in solvers:
-            st, model, ms = solve(sv, defs, asserts, timeout, seed)
+            st, model, ms = solve(sv, defs, asserts, timeout if sv == solvers[0] else 60, seed)
             res["smt_ms"] += ms
             statuses[sv] = (st, ms)
             if st == "sat" and witness is None:
@@ -164,7 +165,7 @@ def run_task(task, tier, seed):
                     res["undecided"].append(f"{oid}: solver {sv} says sat but no model reproduces on the real parser "
                                             f"(refuted: {blocked!r}) — translation or parses_ok imprecise")
         sts = {v[0] for v in statuses.values()}
-        discharged = sts == {"unsat"}
+        discharged = statuses[solvers[0]][0] == "unsat" and "sat" not in sts
         res["obligations"].append({"id": oid, "discharged": discharged, "solvers": {k: v[0] for k, v in statuses.items()},
                                    "ms": {k: v[1] for k, v in statuses.items()}})
         res["samples"].append({"obligation": oid, "text": text, "query": " ∧ ".join(asserts), "expected": "unsat",
@@ -179,7 +180,7 @@ def run_task(task, tier, seed):
                     f"pattern literal from {task['file']}::{task['static']}:\n{r['pattern']}\n"
                     f"replay-cmd: {ZERV} check --format {fmt} -- {shell_quote(s)}; test $? -eq {1 if acc else 0}\n")
             res["violations"].append({"obligation": oid, "input": s, "replay_text": body})
-        elif "unknown" in sts and "sat" not in sts:
+        elif statuses[solvers[0]][0] == "unknown" and "sat" not in sts:
             res["undecided"].append(f"{oid}: solver answered unknown/timeout {statuses}")
     # ---- translation guard: members and non-members sampled from the solver must agree with the real parser
     checked, disagreements = 0, []
@@ -189,7 +190,7 @@ def run_task(task, tier, seed):
         probes.append((["(not (str.in_re s code))", "(str.in_re s (re.* (re.union (re.range \"0\" \"9\") (re.range \"a\" \"c\") "
                         "(str.to_re \".\") (str.to_re \"-\") (str.to_re \"+\") (str.to_re \"!\"))))", f"(= (str.len s) {n})"], False))
     for asserts, member in probes[: (6 if tier == "quick" else 10)]:
-        st, model, ms = solve("z3-4.8.12", defs, asserts, 30, seed)
+        st, model, ms = solve("z3-5.1.0", defs, asserts, 30, seed)
         if st != "sat" or model is None:
             continue
         acc, so, se = real_accepts(fmt, model)
